@@ -12,7 +12,7 @@ REQUIRED_MONITORS = ["explicit-order@SSI_mpe", "explicit-order@pLSCF_mpe", "find
 ALL_STATES = ["order:int", "order:list", "mode missing at the order", "nearest pole belongs to another requested mode", "all found", "none found",
               "with covariances", "find_min: qualifying order exists", "find_min: two stable poles in one band at a lower order",
               "find_min: f>1Hz pole between absolute and relative band", "f<1Hz requests"]
-REQUIRED_STATES = ["order:int", "order:list", "mode missing at the order", "nearest pole belongs to another requested mode", "with covariances",
+REQUIRED_STATES = ["successive mpe calls with different rtol", "order:int", "order:list", "mode missing at the order", "nearest pole belongs to another requested mode", "with covariances",
                    "find_min: qualifying order exists", "find_min: two stable poles in one band at a lower order",
                    "find_min: f>1Hz pole between absolute and relative band"]
 RULE = ("structured pole tables (modes x orders, modes missing at some orders, spurious poles, NaN rows, per-column row shuffles) in which every "
@@ -401,6 +401,24 @@ def run_real(ctx, rng):
             judge_explicit(ctx, tag, f"{key}_cls_explicit", req, orders, arg, rtol, (res.Fn_poles, res.Xi_poles, res.Phi_poles), covs, ret)
             ctx.check(key in rec, f"{key}_cls:function_not_used", f"{alg.name}.mpe did not go through the extraction routine")
             ctx.nontrivial(("real", key, tuple(orders), rtol))
+        # history: successive extractions with different tolerances on the same object; each call must honour ITS rtol
+        for alg, key in ((a, "ssi"), (p, "plscf")):
+            res = alg.result
+            valid = [o for o in range(res.Fn_poles.shape[1]) if np.isfinite(res.Fn_poles[:, o]).any()]
+            if not valid:
+                continue
+            o = int(valid[-1])
+            col = res.Fn_poles[:, o]
+            f0 = float(col[np.isfinite(col)][0])
+            req = [f0 * 1.03]  # 3 % away from a pole: rejected at rtol 0.01, accepted at 0.05 (unless another pole is nearer)
+            for rt in (0.05, 0.01, 0.05, 0.01):
+                ss.mpe(alg.name, sel_freq=list(req), order=o, rtol=rt)
+                r2 = alg.result
+                ret = (r2.Fn, r2.Xi, r2.Phi, r2.order_out, getattr(r2, "Fn_cov", None), getattr(r2, "Xi_cov", None), getattr(r2, "Phi_cov", None))
+                covs = (r2.Fn_poles_cov, r2.Xi_poles_cov, r2.Phi_poles_cov) if (key == "ssi" and r2.Fn_poles_cov is not None) else None
+                tag = "explicit-order@SSIcov.mpe(real run)" if key == "ssi" else "explicit-order@pLSCF.mpe(real run)"
+                judge_explicit(ctx, tag, f"{key}_cls_rtol_history", req, [o], o, rt, (r2.Fn_poles, r2.Xi_poles, r2.Phi_poles), covs, ret)
+            ctx.state("successive mpe calls with different rtol")
         # find_min through the SSI class
         r = a.result
         rtol = 0.02
